@@ -467,6 +467,8 @@ def run_c17_ble(case, R):
     async def main(loop):
         w = BleWorld(loop, k=0, att_payload=case["att"])
         w.acc.response_frag = case.get("rfrag", 512)
+        for h_ in w.acc.handles:
+            h_.max_write_without_response_size = max(0, case["att"] + case["mwwrs"]) if case.get("mwwrs") is not None else 0
         try:
             p = w.pairing
             text = ("é" * (n // 2) + "a" * (n % 2))
@@ -474,6 +476,11 @@ def run_c17_ble(case, R):
                 await p.put_characteristics([(1, 16, text)])
                 got = await p.get_characteristics([(1, 16)])
             except Exception as e:  # noqa: BLE001
+                over = [o for c in w.clients for o in c.oversize]
+                if over:
+                    R.fail("C17.ble-fragment-too-large", f"a write of {over[0][1]} bytes on a link that carries {over[0][2]} (ATT payload {case['att']}, reported write size "
+                                                         f"{case.get('mwwrs')}); then {type(e).__name__}")
+                    return
                 R.fail("C17.ble-api", f"string of {n} bytes at ATT payload {case['att']}: {type(e).__name__}: {e}", exc=type(e).__name__)
                 return
             if (16, text.encode()) not in w.acc.writes:
@@ -481,9 +488,9 @@ def run_c17_ble(case, R):
                 return
             if got != {(1, 16): {"value": text}}:
                 R.fail("C17.ble-response", f"read back {got!r:.100} (response fragments of {case.get('rfrag')})")
-            biggest = max(len(d) for k, _, d in w.client.log if k == "w")
-            if biggest > case["att"]:
-                R.fail("C17.ble-fragment-too-large", f"a write of {biggest} bytes at ATT payload {case['att']}")
+            over = [o for c in w.clients for o in c.oversize]
+            if over:
+                R.fail("C17.ble-fragment-too-large", f"a write of {over[0][1]} bytes on a link that carries {over[0][2]} (ATT payload {case['att']}, reported write size {case.get('mwwrs')})")
             await p.shutdown()
         finally:
             w.restore()
@@ -493,7 +500,7 @@ def run_c17_ble(case, R):
 @st.composite
 def c17_ble_cases(draw):
     return {"len": draw(st.one_of(st.integers(0, 64), st.integers(0, 1200))), "att": draw(st.sampled_from([23, 24, 30, 64, 155, 244, 512])),
-            "rfrag": draw(st.sampled_from([20, 23, 100, 512]))}
+            "rfrag": draw(st.sampled_from([20, 23, 100, 512])), "mwwrs": draw(st.sampled_from([None, None, -10, 0, 1, 20, 200]))}
 
 
 C17_BLE_LAYERS = [Layer("ble-api", run_c17_ble, strategy=c17_ble_cases, n={"quick": 1500, "thorough": 20000})]
